@@ -174,6 +174,65 @@ example : runSeq {} [.clean 2 0, .broken 3 1] = { fds := 1, threads := 0, childr
         = { fds := 1, threads := 0, children := 0, sems := 1 } := by
   decide
 
+/-! ## oversized tasks queued behind busy workers -/
+
+/-- **every teardown route releases the executor although the feeder thread is blocked mid-send**: a SIGKILLed
+    worker, `shutdown(kill_workers=True)`, `get_reusable_executor(kill_workers=True)` and a graceful
+    shutdown, for every number of workers -/
+theorem big_task_releases (r : Route) (n : Nat) (hn : n ≠ 0) (l0 : Nat) : Released (runBig r n l0) := by
+  cases r <;> simp only [runBig, progBig, runOps_append, run_spawns] <;> simp [hn, runOps, apply, Released]
+
+/-- … and the ledger is that of the same lifecycle without the oversized task -/
+theorem big_task_balanced (r : Route) (n : Nat) (hn : n ≠ 0) (l0 : Nat) :
+    counts (runBig r n l0) = lingerCounts (if r = .sigkill then 1 else 0) := by
+  rw [released_holds_nothing _ (big_task_releases r n hn l0)]
+  cases r <;> simp only [runBig, progBig, runOps_append, run_spawns] <;> simp [hn, runOps, apply] <;> omega
+
+/-- **witness (D22, fixed)**: with the read end left open by `kill_workers` the blocked feeder thread stays
+    for ever and with it the call queue: one thread, the pipe, the semaphores (the ledger's `held`
+    over-approximates the three of the call queue to all six) per lifecycle -/
+theorem D22_blocked_feeder_leaked :
+    counts (runOpsOld {} (progBig .killShutdown 1)) = { fds := 2, threads := 1, children := 0, sems := 6 }
+    ∧ ¬ Released (runOpsOld {} (progBig .killShutdown 1)) := by
+  refine ⟨by decide, fun h => ?_⟩
+  exact absurd h.2.1 (by decide)
+
+example : counts (runBig .killShutdown 1) = {} ∧ counts (runBig .sigkill 2) = lingerCounts 1 := by decide
+
+/-! ## futures kept by the caller -/
+
+/-- **user-held futures pin nothing**: whatever futures of completed lifecycles the caller keeps — results,
+    task errors, PicklingErrors of unsendable arguments or unpicklable results, errors of broken or killed
+    pools, any number of each — the process ledger is that of the lifecycles alone -/
+theorem kept_futures_pin_nothing (base : Counts) (ls : List (Life × List FutKind)) :
+    runSeqKept futurePins base ls = runSeq base (ls.map Prod.fst) := by
+  have hf : ∀ l : List FutKind, l.filter futurePins = [] := by
+    intro l; induction l <;> simp_all [List.filter, futurePins]
+  simp only [runSeqKept, keptCounts, hf]
+  cases h : runSeq base (List.map Prod.fst ls); rfl
+
+/-- **repeating with kept futures does not accumulate** -/
+theorem repeat_n_kept (ls : List (Life × List FutKind)) (n : Nat) (base : Counts) :
+    runSeqKept futurePins base (List.replicate (n + 1) ls).flatten = runSeqKept futurePins base ls := by
+  rw [kept_futures_pin_nothing, kept_futures_pin_nothing]
+  have : (List.replicate (n + 1) ls).flatten.map Prod.fst = (List.replicate (n + 1) (ls.map Prod.fst)).flatten := by
+    simp [List.map_flatten, List.map_replicate]
+  rw [this, repeat_n]
+
+/-- **witness**: were the error stored for unsendable arguments to reference the feeder thread's frame (the
+    original exception kept as `__context__`), every lifecycle with such a kept future would leave one
+    descriptor and three semaphores behind: five repetitions, five times as much -/
+theorem pinning_future_accumulates :
+    runSeqKept (fun k => k == .unsendableArgs) {} [(Life.clean 1 0, [FutKind.unsendableArgs, .result])]
+      = { fds := 1, threads := 0, children := 0, sems := 3 }
+    ∧ runSeqKept (fun k => k == .unsendableArgs) {}
+        (List.replicate 5 [(Life.clean 1 0, [FutKind.unsendableArgs, .result])]).flatten
+      = { fds := 5, threads := 0, children := 0, sems := 15 } := by
+  decide
+
+example : runSeqKept futurePins {} [(.clean 2 0, [.unsendableArgs, .taskError]), (.kill 1, [.killedPool])] = {} := by
+  decide
+
 /-- the ledger is not trivially zero: an executor whose manager thread died before `join_executor_internals`
     (the shape of the defect repaired by "ignore InvalidStateError …") keeps everything — workers, pipes, the
     feeder thread and through it the queues; it is *not* released -/
